@@ -133,7 +133,10 @@ class World:
         try:
             return enc.project(o)
         except Exception as e:   # object no longer printable: report as broken
-            return {'c': type(o).__name__, 'v': [], 'p': -1, 'n': -7}
+            r = {'c': type(o).__name__, 'v': [], 'p': -1, 'n': -7}
+            if r['c'] == 'Array':
+                r.update(dn='uint', dl=1)
+            return r
 
     def diff_post(self):
         post = {}
@@ -190,15 +193,32 @@ class World:
             self.objs.pop(d, None)
             self.last.pop(d, None)
         ev = {'tid': tid, 'seq': seq, 'op': opname, 't': call['t'], 'drop': drop, 'ia': list(call['ia']),
+              'raw': json_safe(call.get('raw', [])),
               'sa': list(call['sa']), 'va': [list(v) for v in call['va']],
               'xs': [self.describe_operand(x) for x in call['xs']],
               'tk': [{'nm': t['nm'], 'n': t['n'], 'hv': t['hv'], 'val': list(t['val'])} for t in call['tk']],
               'opts': self.opts()}
         out = {'k': 'ok', 'exc': [], 'ename': '', 'vals': [], 'ids': [], 'alias': []}
+        import signal
+
+        def _too_long(signum, frame):
+            raise enc.Unloggable('call took longer than 20 s')
         try:
-            ret = fn(self, call)
+            old_handler = signal.signal(signal.SIGALRM, _too_long)
+            signal.alarm(20)
+        except ValueError:
+            old_handler = None
+        try:
+            try:
+                ret = fn(self, call)
+            finally:
+                if old_handler is not None:
+                    signal.alarm(0)
+                    signal.signal(signal.SIGALRM, old_handler)
         except enc.Unloggable:
             raise
+        except MemoryError:
+            raise enc.Unloggable('MemoryError under the harness memory limit')
         except Exception as e:  # noqa - every failure of the library is an observation
             out['k'] = 'raise'
             out['exc'] = enc.exc_categories(e)
@@ -208,7 +228,12 @@ class World:
             rets = ret if isinstance(ret, Multi) else Multi([ret])
             for k, r in enumerate(rets.items):
                 h = rets.hints[k] if rets.hints else hint
-                if isinstance(r, (self.bs.Bits, self.bs.Array)):
+                if isinstance(r, (self.bs.Bits, self.bs.Array)) and len(getattr(r, 'data', r)) > 200000:
+                    # too large to project (adversarial repeat counts): not tracked, not encoded
+                    out['ids'].append('')
+                    out['alias'].append('')
+                    out['vals'].append([13])
+                elif isinstance(r, (self.bs.Bits, self.bs.Array)):
                     alias = ''
                     for oid, o in self.objs.items():
                         if o is r:
@@ -234,6 +259,10 @@ class World:
         ev['post'] = self.diff_post()
         ev['optsp'] = self.opts()
         return ev
+
+
+def json_safe(x):
+    return [[str(a)[:60]] for a in x]
 
 
 class Multi:
@@ -1650,3 +1679,93 @@ def _afromarray(w, c):
         a.extend(arr)
         return a
     return w.bs.Array(tokname(name, n, 0), arr)
+
+
+# ---------------------------------------------------------------------------
+# C20: any public callable with arbitrary well-typed arguments.  The specification leaves the outcome
+# open (Unconstrained) but the envelope still applies: documented exception types only, every object
+# still valid (pos, len), immutable objects and options unchanged.
+
+def _raw_arg(w, a):
+    """argument descriptor -> Python value.  ['i', n] int, ['s', text] str, ['n'] None, ['b', 0/1] bool,
+    ['f', float-as-text] float, ['o', id] tracked object, ['l', [bits]] list of bools, ['x', kind, [bits]] literal,
+    ['li', [ints]] list of ints, ['y', [bytes]] bytes, ['r', a, b, c] range"""
+    k = a[0]
+    if k == 'i':
+        return int(a[1])
+    if k == 's':
+        return a[1]
+    if k == 'n':
+        return None
+    if k == 'b':
+        return bool(a[1])
+    if k == 'f':
+        return float(a[1])
+    if k == 'o':
+        return w.objs[a[1]]
+    if k == 'l':
+        return [bool(b) for b in a[1]]
+    if k == 'x':
+        return w.make_lit(a[1], a[2])
+    if k == 'li':
+        return list(a[1])
+    if k == 'y':
+        return bytes(a[1])
+    if k == 'r':
+        return range(a[1], a[2], a[3])
+    if k == 'lo':
+        return [_raw_arg(w, x) for x in a[1]]
+    if k == 'sl':
+        return slice(a[1], a[2], a[3])
+    raise ValueError(k)
+
+
+def _consume(r):
+    """exhaust generators / iterators returned by the call (bounded)"""
+    import types
+    if isinstance(r, (types.GeneratorType,)) or (hasattr(r, '__next__')):
+        out = []
+        for i, x in enumerate(r):
+            out.append(x)
+            if i > 2000:
+                break
+        return out
+    return r
+
+
+@op('rawcall')
+def _rawcall(w, c):
+    """sa = [kind, name]; kind: method | getattr | setattr | ctor | func | operator ; raw = argument descriptors"""
+    kind, name = c['sa'][0], c['sa'][1]
+    args = [_raw_arg(w, a) for a in c.get('raw', [])]
+    kwargs = {k: _raw_arg(w, a) for k, a in c.get('rawkw', {}).items()}
+    bs = w.bs
+    if name == 'pp' and kind == 'method':
+        kwargs.setdefault('stream', io.StringIO())
+    if kind == 'method':
+        r = _consume(getattr(T(w, c), name)(*args, **kwargs))
+    elif kind == 'getattr':
+        r = getattr(T(w, c), name)
+    elif kind == 'setattr':
+        setattr(T(w, c), name, args[0])
+        r = None
+    elif kind == 'ctor':
+        r = getattr(bs, name)(*args, **kwargs)
+    elif kind == 'func':
+        r = _consume(getattr(bs, name)(*args, **kwargs))
+    elif kind == 'operator':
+        import operator
+        r = getattr(operator, name)(T(w, c), *args)
+    elif kind == 'str':
+        r = {'str': str, 'repr': repr, 'bytes': bytes, 'len': len, 'bool': bool, 'hash': hash, 'list': list}[name](T(w, c))
+    else:
+        raise ValueError(kind)
+    # results are not judged (the specification leaves them open); bitstring objects among them are
+    # registered so that later calls can use them and their validity is checked like everyone else's
+    if isinstance(r, (bs.Bits, bs.Array)):
+        return r
+    if isinstance(r, (list, tuple)):
+        objs = [x for x in r if isinstance(x, (bs.Bits, bs.Array))][:4]
+        if objs:
+            return Multi(objs)
+    return None
